@@ -61,6 +61,9 @@ class ZSym(AbstractValue):
     def v_isinstance(self, T, it):
         return T == "int"
 
+    def v_int(self, it):
+        return self                  # int() of an int
+
     def __repr__(self):
         return f"Z<{self.p!r}>"
 
@@ -185,6 +188,23 @@ def check_euclid(world: World, f, total=True):
         return it.call_func(f, [a, n], {})
     # the loop may live in a callee (a memoising or type-dispatching wrapper around the routine): any loop met is held to the schema
     paths = enumerate_paths(world, run, while_hooks={"*": hook})
+    # precondition: n is a modulus, n >= 2 — a path that needs n < 2 (an argument guard) is outside the claim
+    def _needs_small_n(p):
+        for atom, truth, _ in p.facts:
+            if isinstance(atom, Term) and atom.op == "zcmp" and atom.args[1] == "n":
+                try:
+                    c = int(atom.args[2])
+                except (TypeError, ValueError):
+                    continue
+                op = atom.args[0]
+                # the set of n >= 2 satisfying (n op c) == truth is empty?
+                sat = {"<": c > 2, "<=": c >= 2, "==": c >= 2, "!=": True, ">": True, ">=": True}[op]
+                if truth and not sat:
+                    return True
+                if not truth and op in (">", ">=") and ((op == ">" and c < 2) or (op == ">=" and c <= 2)):
+                    return True
+        return False
+    paths = [p for p in paths if not _needs_small_n(p)]
     early = [p for p in paths if p.outcome == "return" and isinstance(p.value, int) and p.value == 0
              and not any(ev["kind"] == "zdiv" for ev in p.events)]
     loopp = [p for p in paths if p.outcome == "return" and isinstance(p.value, ZSym)]
